@@ -43,11 +43,12 @@ def write_flat(d, A, parts, offset=0, ext='.dat', stem='rec', same_name=False, s
     i = 0
     for k, p in enumerate(parts):
         # t9, t10, t11 ...: lexicographic order differs from the order in which the parts are given
-        path = Path(d) / ('%s_t%d%s' % (stem, 9 + k, ext))
+        ext_k = ext if isinstance(ext, str) else ext[k % len(ext)]         # (a list: the parts carry different, equally valid extensions)
+        path = Path(d) / ('%s_t%d%s' % (stem, 9 + k, ext_k))
         if same_name:
             # Open Ephys style: recording<k>/continuous.dat - every part has the same base name
             (Path(d) / ('recording%d' % (9 + k))).mkdir(exist_ok=True)
-            path = Path(d) / ('recording%d' % (9 + k)) / ('continuous' + ext)
+            path = Path(d) / ('recording%d' % (9 + k)) / ('continuous' + ext_k)
         with open(path, 'wb') as f:
             f.write(bytes((7 * j + 1) % 256 for j in range(offset)))
             f.write(np.ascontiguousarray(A[i:i + p]).tobytes())
